@@ -132,7 +132,7 @@ def run(check, mirror, tier):
                                  describe=desc, budget_s=600, min_paths=3, timeout_ms=20000, known_predicates=KNOWN_PRED))
     # --- requirement cycles: the cycle detector that guards model building against unbounded recursion -------------------------------
     NN = 3 if tier == "quick" else 4
-    DD = 2 if tier == "quick" else 3
+    DD = 2   # targets per node (3 on the thorough tier did not finish: 133 000 paths in an hour)
     check.bounds.append("find_cycle: dependency graphs with 0..%d keyed nodes, 0..%d targets per node, every target any keyed node or a node without an entry" % (NN, DD))
 
     def setup_cycle(ex, st):
